@@ -77,8 +77,8 @@ inductive Inp where
   | reqBadParams | batchOneBad | batchAllBad | reqOk
   deriving DecidableEq, Repr
 
-private def sx (s : String) : J := .str (lit s)
-private def resp2 (result rid : J) : J := .obj [(kJsonrpc, s20), (kResult, result), (kId, rid)]
+def sx (s : String) : J := .str (lit s)
+def resp2 (result rid : J) : J := .obj [(kJsonrpc, s20), (kResult, result), (kId, rid)]
 
 /-- what `json.loads(message.decode())` does with the input (the bytes are in
 `harness/c05_probe.py`, under the same names) -/
